@@ -436,8 +436,9 @@ JudgePages(e) ==
 (* ------------------------------------------------------------------ the trace *)
 Kind(e) == e.ev
 Judge(s, h, e) ==
-  LET p == IF Kind(e) \in {"twin", "q_pages", "fm_instantiate"} THEN s ELSE e.post IN
+  LET p == IF Kind(e) \in {"twin", "q_pages", "fm_instantiate", "driver_abort"} THEN s ELSE e.post IN
   CASE Kind(e) = "reset" -> NoGuards
+    [] Kind(e) = "driver_abort" -> [ M_driver_completed |-> Must(FALSE) ]
     [] Kind(e) = "twin" -> JudgeTwin(e)
     [] Kind(e) = "q_pages" -> JudgePages(e)
     [] Kind(e) = "advance" -> JudgeAdvance(s, h, e, p)
@@ -467,10 +468,10 @@ Step == /\ l <= Len(Rec)
         /\ LET e == Rec[l]
                h0 == NextHid(st, hid, e)
                h1 == IF Kind(e) = "reset" THEN h0 ELSE [h0 EXCEPT !.nops = @ + 1]     \* events since the reset
-               gs == Judge(st, hid, e) @@ (IF Kind(e) \in {"reset", "twin", "q_pages", "fm_instantiate"} THEN NoGuards ELSE Invariants(e.post, h1) @@ ModelGuards(st, e, e.post) @@ PositionLimits(e.post, h1))
+               gs == Judge(st, hid, e) @@ (IF Kind(e) \in {"reset", "twin", "q_pages", "fm_instantiate", "driver_abort"} THEN NoGuards ELSE Invariants(e.post, h1) @@ ModelGuards(st, e, e.post) @@ PositionLimits(e.post, h1))
            IN /\ Report(e.i, e.sc, gs)
               /\ cnt' = Count(cnt, gs)
-              /\ st' = IF Kind(e) \in {"twin", "q_pages", "fm_instantiate"} THEN st ELSE e.post
+              /\ st' = IF Kind(e) \in {"twin", "q_pages", "fm_instantiate", "driver_abort"} THEN st ELSE e.post
               /\ hid' = h1
         /\ l' = l + 1
 Finish == l = Len(Rec) + 1 /\ PrintCounts(cnt) /\ l' = l + 1 /\ UNCHANGED <<cnt, st, hid>>
